@@ -15,7 +15,7 @@ from checks import scen
 
 PID = "C16"
 MODULE = "checks.c16"
-REQS = ["begin", "step_set", "step", "results", "end", "keepalive", "stop"]
+REQS = ["begin", "begin_set", "step_set", "step", "results", "end", "keepalive", "stop"]
 
 
 def factory():
@@ -33,7 +33,10 @@ def scripts(tier):
              ["keepalive", "step_set"], ["step_set", "step_set"], ["end", "step"], ["results", "step"]]
     if tier == "thorough":
         tails += [list(t) for t in itertools.product(REQS[1:], repeat=3)][::3]
-    return [["begin"] + t for t in tails]
+    out = [["begin"] + t for t in tails]
+    # sessions begun WITH settings (they are written into the scenario objects of that instance)
+    out += [["begin_set", "step", "results"], ["begin_set", "step_set", "step"], ["begin_set", "end", "begin"]]
+    return out
 
 
 def interleavings(a, b, limit):
@@ -76,6 +79,10 @@ class Server(object):
         post = lambda url, body=None: self.c.post(url, data=json.dumps(body), content_type="application/json") if body is not None else self.c.post(url)
         if req == "begin":
             r = post("/%s/begin-session" % uid, {"scenario_managers": ["sm"], "scenarios": ["A"], "equations": scen.EQS})
+        elif req == "begin_set":
+            v = self.value("i%d_r%d" % (inst, pos))
+            r = post("/%s/begin-session" % uid, {"scenario_managers": ["sm"], "scenarios": ["A"], "equations": scen.EQS,
+                                                  "settings": {"sm": {"A": {"constants": {"c": v}}}}})
         elif req == "step_set":
             v = self.value("i%d_r%d" % (inst, pos))
             r = post("/%s/run-step" % uid, {"settings": {"sm": {"A": {"constants": {"k": v}}}}})
